@@ -130,6 +130,26 @@ theorem cut_in_sequence (topic : Bytes) (pre : List C11.Exch) (e : C11.Exch) (po
   · rw [runOps_append]
     simp only [C11.runOps, C11.runOps_closed topic post _ hcut.2, hcut.2]
 
+/-! ### a cut during the version negotiation (conn.go loadVersions) -/
+
+open KV.ConnVersions in
+/-- the response to the ApiVersions request of a negotiating exchange is cut (fewer bytes than announced after a complete
+header): the exchange fails with a non-kafka error, nothing becomes the Conn's version map, the Conn is closed — and the
+same for every later exchange, negotiating or not (`C11.closed_stays_failed`) -/
+theorem negotiation_cut_is_error (strict : Bool) (av : OpSpec) (key : Int) (cands : List Nat)
+    (run : Nat → Conn → Outcome × Conn) (topic : Bytes) (c : Conn) (hdr tail : Bytes) (n : Nat)
+    (hgood : av.good 0 = true) (hclose : av.closeOnErr = true) (hopen : c.closed = false)
+    (hstream : c.stream = hdr ++ tail) (hlen : hdr.length = 8)
+    (hsize : beInt (hdr.take 4) = n + 4) (hid : beInt (hdr.drop 4) = c.nextId) (hcut : tail.length < n) :
+    (vRun strict av key cands run topic ⟨c, none⟩).1.isFail = true ∧
+    (vRun strict av key cands run topic ⟨c, none⟩).2.conn.closed = true ∧
+    (vRun strict av key cands run topic ⟨c, none⟩).2.cache = none := by
+  obtain ⟨hf, hc⟩ := cut_is_error av 0 topic c hdr tail n hgood hclose hopen hstream hlen hsize hid hcut
+  cases hr : (connDo av 0 topic c).1 with
+  | ok => rw [hr] at hf; simp [Outcome.isFail] at hf
+  | kafka k => rw [hr] at hf; simp [Outcome.isFail] at hf
+  | fail e => simp [vRun, loadVersions, hr, hc, Outcome.isFail]
+
 /-- fetch on a cut stream, for every conserving message-set reader and however far the caller read the batch before
 Close: a non-kafka error, and the Conn is closed — the same statement as `cut_is_error` (since the fix C02-D33; before
 it a kafka error out of ReadMessage, or an early Close, could end "successfully" on a Conn left in mid-response) -/
